@@ -86,12 +86,15 @@ fn shape_check(out: &mut RunOut, tag: &str, opname: &str, log: &[(String, u32, u
 
 pub static EVENT_SEQ: AtomicU64 = AtomicU64::new(0);
 
+/// runs per round that interleave two operations on one context
+const INTERLEAVED: u64 = 8;
+
 impl Property for C23 {
     fn meta(&self) -> Meta {
         Meta {
             id: "C23",
             level: "fault_enumeration",
-            rule: "one evaluation = one execution of a real SDK operation (sign, sidecar sign, read, sidecar read, add-ingredient, to/with_archive; sync and async; data/box/BMFF hash; hash chunk knob 48 bytes so hashing phases tick many times) with the progress callback returning false - or calling Context::cancel() - exactly at invocation k, for EVERY k in 1..N of the recorded fault-free callback sequence; plus cross-thread runs where a second turnstile thread calls cancel() at a PRNG-chosen seam call. Non-trivial = the callback was really invoked k times; distinct = distinct (scenario, mode, k, phase, step, total)",
+            rule: "one evaluation = one execution of a real SDK operation (sign, sidecar sign, read, sidecar read, add-ingredient, to/with_archive; sync and async; data/box/BMFF hash; hash chunk knob 48 bytes so hashing phases tick many times) with the progress callback returning false - or calling Context::cancel() - exactly at invocation k, for EVERY k in 1..N of the recorded fault-free callback sequence; plus cross-thread runs where a second turnstile thread calls cancel() at a PRNG-chosen seam call. Non-trivial = the callback was really invoked k times; distinct = distinct (scenario, mode, k, phase, step, total) Eight more runs per round interleave two operations on one shared context at a checkpoint: while A is paused in its k-th progress callback the context is cancelled and a read B runs to its end on the same context (every k): both end with the cancellation error.",
             assumptions: &[
                 "a cancel is only required to be reported when a checkpoint poll follows it",
                 "progress-shape clause evaluated on the fault-free callback sequence",
@@ -103,7 +106,7 @@ impl Property for C23 {
     }
 
     fn runs(&self, tier: Tier) -> u64 {
-        let n = scenarios().len() as u64;
+        let n = scenarios().len() as u64 + INTERLEAVED;
         match tier {
             Tier::Quick => n,
             Tier::Thorough => n * 6,
@@ -117,8 +120,15 @@ impl Property for C23 {
     fn run(&self, rc: &mut RunCtx) -> RunOut {
         let mut out = RunOut::default();
         let scs = scenarios();
-        let (op, fmt, binding, is_async) = scs[(rc.idx % scs.len() as u64) as usize];
-        let round = rc.idx / scs.len() as u64;
+        // the last runs of a round: two operations on one context, interleaved at a checkpoint
+        if rc.idx % (scs.len() as u64 + INTERLEAVED) >= scs.len() as u64 {
+            crate::props::c24::interleaved_cancel(rc, &mut out, "C23", 0);
+            out.digest = hash_str(&format!("interleave|{}", out.evals));
+            return out;
+        }
+        let (op, fmt, binding, is_async) = scs[((rc.idx % (scs.len() as u64 + INTERLEAVED)) % scs.len() as u64) as usize];
+        let rc_idx_round = rc.idx / (scs.len() as u64 + INTERLEAVED);
+        let round = rc_idx_round;
         let knob = [700usize, 48, 4096, 200, 1500, 17][(round % 6) as usize];
         c2pa::verif::set_max_hash_buf(knob);
         let overlay = sdk::binding_overlay(binding);
